@@ -420,11 +420,11 @@ def run(ck):
         runs = []
         for _ in range(12 * T):
             n = rng.choice([2, 3, 5, 8, 20])
-            # at least one position must admit two values: recombination::base re-mutates a child that equals a parent
+            # at least one position must admit three values: recombination::base re-mutates a child that equals a parent
             # until it differs, which never ends when no gene can change (a liveness matter outside this property)
             rg = int_ranges(rng, n)
             k = rng.randrange(n)
-            if all(hi - lo < 2 for lo, hi in rg):
+            if all(hi - lo < 3 for lo, hi in rg):   # (two values are not enough: the child must differ from BOTH parents)
                 lo = min(max(rg[k][0] - 7, I32_MIN), I32_MAX - 16)
                 rg[k] = (lo, lo + 16)
             runs.append("garun %d %d %d %s %s %d %s" % (rng.getrandbits(32), rng.randint(2, 8), rng.choice([6, 10, 30]),
@@ -432,10 +432,10 @@ def run(ck):
                                                         n, " ".join("%d %d" % r for r in rg)))
         import subprocess
         try:
-            rout, rcr = pc.run_harness_resilient(harness, runs, timeout=300)
+            rout, rcr = pc.run_harness_resilient(harness, runs, timeout=100)
         except subprocess.TimeoutExpired:
             rout, rcr = ["TIMEOUT"] * len(runs), {}
-            ck.notes.append("in-situ ga_search runs did not finish within 300 s (not judged)")
+            ck.notes.append("in-situ ga_search runs did not finish within 100 s (not judged)")
         for i, (l, ho) in enumerate(zip(runs, rout)):
             ck.count()
             hist["garun"] = hist.get("garun", 0) + 1
